@@ -413,6 +413,7 @@ fn build_universe(a: &Args) -> (Vec<Elem>, BTreeMap<String, u64>) {
                         seed_tags: a.list("seed-tags"),
                         trivia_tags: a.list("trivia-tags"),
                         ctx_filter: a.list("ctx"),
+                        opt: a.get("opt", "false") == "true",
                     },
                 );
                 elems.extend(es);
@@ -432,6 +433,7 @@ fn build_universe(a: &Args) -> (Vec<Elem>, BTreeMap<String, u64>) {
                         seed_tags: a.list("seed-tags"),
                         trivia_tags: a.list("trivia-tags"),
                         ctx_filter: a.list("ctx"),
+                        opt: a.get("opt", "false") == "true",
                     },
                 );
                 // the base slice is seed-independent (seed 0 below); the seed then samples within it
@@ -711,6 +713,14 @@ fn cmd_hist(a: &Args) {
     for (i, (x, y)) in pairs.iter().enumerate() {
         docs.push((format!("pair:{i}:a"), x.to_string()));
         docs.push((format!("pair:{i}:b"), y.to_string()));
+    }
+    // the same pairs at a size no fixture reaches (a long-running server sees large documents too): two documents of
+    // identical shape and span numbering, thousands of attributed nodes each
+    if a.get("big", "true") == "true" {
+        for (i, (x, y)) in pairs.iter().enumerate().take(2) {
+            docs.push((format!("giantpair:{i}:a"), x.repeat(3000)));
+            docs.push((format!("giantpair:{i}:b"), y.repeat(3000)));
+        }
     }
     let outdir = PathBuf::from(a.get("outdir", "work/hist"));
     let r = extra::record_histories(&docs, &cfgs, &outdir, a.num("hthreads", 16) as usize,
